@@ -151,6 +151,13 @@ pub enum Op {
     ExecProbe { sender: String, contract: String, msg: String, #[serde(with = "funds_s")] funds: Vec<(String, u128)>, #[serde(with = "funds_s")] mint: Vec<(String, u128)> },
 }
 
+const KNOWN_VARIANTS: &[&str] = &[
+    "liquid_stake", "liquid_unstake", "submit_batch", "withdraw", "add_validator", "remove_validator", "transfer_ownership",
+    "accept_ownership", "revoke_ownership_transfer", "update_config", "receive_rewards", "receive_unstaked_tokens",
+    "circuit_breaker", "resume_contract", "recover_pending_ibc_transfers", "fee_withdraw", "spend_funds",
+    "swap_exact_amount_in", "swap_exact_amount_out", "malformed", "unknown_variant", "bogus",
+];
+
 impl Op {
     pub fn exec(sender: &str, contract: &str, msg: Value, funds: Vec<(String, u128)>) -> Op {
         Op::Exec { sender: sender.into(), contract: contract.into(), msg: msg.to_string(), funds }
@@ -160,6 +167,9 @@ impl Op {
             Op::Exec { msg, .. } | Op::Hook { msg, .. } | Op::HookForeign { msg, .. } => {
                 let v: Value = serde_json::from_str(msg).unwrap_or(Value::Null);
                 let k = v.as_object().and_then(|o| o.keys().next().cloned()).unwrap_or_else(|| "malformed".into());
+                // byte-corrupted variant names (C16 hostile lane) all fall into one class, so that neither the
+                // counters nor the distinct-case keys grow with the noise
+                let k = if KNOWN_VARIANTS.contains(&k.as_str()) { k } else { "garbled_variant".to_string() };
                 if matches!(self, Op::HookForeign { .. }) {
                     format!("hookforeign:{k}")
                 } else if matches!(self, Op::Hook { .. }) {
